@@ -87,6 +87,11 @@ def make_case(cid, rng, schema, root, n_ops, disk):
     if disk:
         add({"op": "exists", "dir": d}, "exists")
         add({"op": "load_probe", "dir": d}, "load_probe")
+        # the version-specific public entry points are observers too (on a 1.x library they must refuse, and change nothing)
+        add({"op": "lib_exists", "dir": d}, "lib_exists")
+        add({"op": "lib_load_probe", "dir": d}, "lib_load_probe")
+        add({"op": "lib_exists", "dir": d + "/"}, "lib_exists2")
+        add({"op": "exists", "dir": d}, "exists2")
     add({"op": "handle_ops", "h": "t0"}, "handle_ops")
     add({"op": "counters"}, "c1")
     add({"op": "rawdump", "digest": True, "checks": False}, "d1")
@@ -144,6 +149,20 @@ def judge_case(ctx, res):
         if m in by and "exc" in by[m]:
             x = by[m]["exc"]
             ctx.violation(f"observer-throws {fam} {m}", f"{schema}: {m} throws {x['type']} on a library made through the API", wit)
+    if "lib_exists" in by:
+        v2 = is_v2(schema)
+        ctx.bump_in("observer_blocks", "v2-entry-points")
+        for m in ("lib_exists", "lib_exists2"):
+            if by[m].get("ret") is not v2:
+                ctx.violation(f"v2-exists-wrong {fam}", f"{schema}: engine_library::exists() = {by[m].get('ret', by[m].get('exc', {}).get('type'))}", wit)
+        lp = by["lib_load_probe"]
+        if v2 and ("exc" in lp or lp["ret"].get("schema") != schema):
+            ctx.violation(f"v2-load-wrong {fam}", f"{schema}: engine_library::load() gives {lp.get('ret', lp.get('exc', {}).get('type'))}", wit)
+        if not v2 and "exc" not in lp:
+            ctx.violation(f"v2-load-accepts-legacy-library {fam}", f"{schema}: engine_library::load() loads a 1.x library as {lp.get('ret')}", wit)
+        for m in ("exists", "exists2"):
+            if by[m].get("ret") is not True:
+                ctx.violation(f"exists-flips {fam}", f"{schema}: database_exists() is {by[m].get('ret')} for an existing library during the observing block", wit)
     tc0, tc1 = by["c0"]["ret"]["total_changes"], by["c1"]["ret"]["total_changes"]
     if tc0 != tc1:
         ctx.violation(f"total-changes-moved {fam} {stor}", f"{schema}: sqlite3_total_changes went from {tc0} to {tc1} across the observing block", wit)
@@ -186,7 +205,9 @@ def nolib_cases(root):
                 open(os.path.join(d, e), "w").write("x" * 10)
         cases.append({"id": "nolib-" + name, "schema": "-", "_nolib": name, "_disk": True, "dir": d, "_marks": [],
                       "ops": [{"op": "file_digest", "dir": d}, {"op": "exists", "dir": d}, {"op": "load", "dir": d},
-                              {"op": "exists", "dir": d + "/"}, {"op": "file_digest", "dir": d}]})
+                              {"op": "exists", "dir": d + "/"}, {"op": "file_digest", "dir": d},
+                              {"op": "lib_exists", "dir": d}, {"op": "lib_load_probe", "dir": d}, {"op": "lib_exists", "dir": d},
+                              {"op": "exists", "dir": d}, {"op": "file_digest", "dir": d}]})
     d = os.path.join(root, "nolib-missing")
     cases.append({"id": "nolib-missing", "schema": "-", "_nolib": "missing", "_disk": True, "dir": None, "_marks": [],
                   "ops": [{"op": "file_digest", "dir": root + "/does-not-exist"}, {"op": "exists", "dir": root + "/does-not-exist"},
@@ -209,6 +230,13 @@ def judge_nolib(ctx, res):
                       f"database_exists()/load_database() on a directory without a library ({name}) changed it: {ev[0].get('ret')} -> {ev[4].get('ret')}", wit)
     if ev[1].get("ret") is not False or ev[3].get("ret") is not False:
         ctx.violation(f"exists-true-without-library {name}", f"database_exists() is not false for a directory without a library ({name})", wit)
+    if len(ev) >= 10:
+        if ev[0].get("ret") != ev[9].get("ret"):
+            ctx.violation(f"files-changed-by-probing-nolib {name} v2-entry-points",
+                          f"engine_library::exists()/load() on a directory without a library ({name}) changed it: {ev[0].get('ret')} -> {ev[9].get('ret')}", wit)
+        if ev[5].get("ret") is not False or ev[7].get("ret") is not False or ev[8].get("ret") is not False or "exc" not in ev[6]:
+            ctx.violation(f"exists-true-without-library {name} v2-entry-points",
+                          f"engine_library::exists()/load() do not refuse a directory without a library ({name})", wit)
 
 
 def run(ctx):
@@ -222,6 +250,10 @@ def run(ctx):
                 c = make_case("s%d" % n, ctx.rng, schema, root, 24 + (k % 3) * 10, disk=(k % 2 == 0))
                 if c["dir"]:
                     os.makedirs(c["dir"], exist_ok=True)
+                    if k % 8 == 2 and not is_v2(schema):
+                        # a stray, empty Database2 folder next to a 1.x library (left by other software)
+                        os.makedirs(os.path.join(c["dir"], "Database2"), exist_ok=True)
+                        ctx.bump("legacy_libraries_with_stray_Database2_folder")
                 cases.append(c)
                 n += 1
         ctx.sample({"schema": cases[0]["schema"], "block": [m for m in cases[0]["_marks"] if m]})
